@@ -53,3 +53,14 @@ package sim
 //@   property C19
 //@   pure
 //@   ensures[reports_recorded_errors] (result != nil) == (len(ec.errors) > 0)
+
+// Every iteration of the run loop passes the decision-error check before anything else happens, and an
+// instance that completed is only left behind when all (non-excluded) participants decided the same value.
+//@ func (*Simulation).Run
+//@   property C19
+//@   modifies auto
+//@   maypanic
+//@   at getMaxRound 1
+//@     before[decision_errors_abort_the_run] res(Err, 1) == nil
+//@   at getPowerTable 2
+//@     before[completed_instance_needs_consensus] res(HasCompleted, 1) && res(HasReachedConsensus, 1, 1)
